@@ -7,9 +7,10 @@ From Model Require Import Base.
 Open Scope N_scope.
 
 Definition w32 : N := 4294967296.
-Definition add32 (a b : N) : N := (a + b) mod w32.
-Definition rotr (n x : N) : N := N.lor (N.shiftr x n) ((N.shiftl x (32 - n)) mod w32).
-Definition not32 (x : N) : N := w32 - 1 - x.
+Definition mask32 : N := 4294967295.
+Definition add32 (a b : N) : N := N.land (a + b) mask32.
+Definition rotr (n x : N) : N := N.lor (N.shiftr x n) (N.land (N.shiftl x (32 - n)) mask32).
+Definition not32 (x : N) : N := mask32 - x.
 Definition ch (x y z : N) : N := N.lxor (N.land x y) (N.land (not32 x) z).
 Definition maj (x y z : N) : N := N.lxor (N.lxor (N.land x y) (N.land x z)) (N.land y z).
 Definition bsig0 (x : N) : N := N.lxor (N.lxor (rotr 2 x) (rotr 13 x)) (rotr 22 x).
